@@ -10,7 +10,9 @@ SPEC = {
     "rule": "a case = three related PlutusData values (depth 0..4, width 0..3; tags 121..127, 1280..1400, 102 with any_constructor; "
             "Int / BigUInt / BigNInt incl. leading zeros, -0 and magnitudes around 2^64; byte strings of 0,1,2,31,32,63..66,127..129,192,193 "
             "and random 0..260 bytes): all 9 ordered comparisons, encode+decode of each, decode of an alternative valid encoding of each "
-            "(non-minimal heads, arbitrary chunking), one malformed/truncated input; distinct = sha1 of op text; non-trivial = the case "
+            "(non-minimal heads, arbitrary chunking), one malformed/truncated input; plus max(4, cases/50) cases with constructor tags "
+            "outside the quantifier (0,2,3,5,101,103,120,128,1279,1401,2^64-1, 102 without any_constructor) where only impl-vs-model "
+            "agreement (incl. the panic outcome) is compared; distinct = sha1 of op text; non-trivial = the case "
             "contains a comparison that is `eq` between textually different values AND a strict (`lt`/`gt`) comparison",
     "trusted_base": ["Model/PlutusData.lean is a hand transcription of pallas-primitives/src/plutus_data.rs (the three Ord impls, "
                      "constr_index with its two panic sites, Encode/Decode of PlutusData, BigInt, Constr, BoundedBytes, and of "
